@@ -868,11 +868,11 @@ example : (steps Builder.init [.optional .any, .requiredRepeated .any] : Except 
     .error .requiredAfterOptional := rfl
 example : buildOne ({ ops := [.block .any], kind := .fn } : Creator Ty BTy) = .error .requiresBlock := rfl
 -- C16_run_first: the second dispatch runs for (3, true, 7) with a one-argument block; the first one (Array[Integer]) rejects 3
-example : run inst binst sampleTable [.int 3, .bool true, .int 7] (some ⟨1, some 1⟩) = .called (.ran 1) := by decide
+example : run inst binst sampleTable [.int 3, .bool true, .int 7] (some { min := 1, max := some 1 }) = .called (.ran 1) := by decide
 -- the same arguments without the block still pick dispatch 1 (optional block); with a two-argument block dispatch 1 and
 -- every other one reject: reported (C16_run_nomatch, both directions inhabited)
 example : run inst binst sampleTable [.int 3, .bool true, .int 7] none = .called (.ran 1) := by decide
-example : run inst binst sampleTable [.int 3, .bool true, .int 7] (some ⟨2, some 2⟩) = .called .reported := by decide
+example : run inst binst sampleTable [.int 3, .bool true, .int 7] (some { min := 2, max := some 2 }) = .called .reported := by decide
 -- Integer[0,5] rejects 6, so the catch-all third dispatch is the first match; an array goes to the first
 example : run inst binst sampleTable [.int 6] none = .called (.ran 2) := by decide
 example : run inst binst sampleTable [.arr [.int 1, .int 2]] none = .called (.ran 0) := by decide
@@ -897,10 +897,10 @@ def audDs : List (Dispatch Ty BTy) :=
     { types := [.int none none, .str 0 none], min := 1, max := none, block := .optional .any },
     { types := [], min := 0, max := some 2, block := .none } ]
 -- hypothesis of `C16_first`: dispatch 1 runs for (7, 'a', 'b') with a block; dispatch 0 refuses 7 (hypotheses of `C16_first_conv`)
-example : call inst binst audDs [.int 7, .str "a", .str "b"] (some ⟨0, none⟩) = .ran 1 := by decide
+example : call inst binst audDs [.int 7, .str "a", .str "b"] (some { min := 0, max := none }) = .ran 1 := by decide
 example : audDs[1]? = some ⟨[.int none none, .str 0 none], 1, none, .optional .any⟩ ∧
-    callableWith inst binst ⟨[.int none none, .str 0 none], 1, none, .optional .any⟩ [.int 7, .str "a", .str "b"] (some ⟨0, none⟩) = true ∧
-    callableWith inst binst ⟨[.int (some 0) (some 5)], 1, some 1, BlockReq.none⟩ [.int 7, .str "a", .str "b"] (some ⟨0, none⟩) = false :=
+    callableWith inst binst ⟨[.int none none, .str 0 none], 1, none, .optional .any⟩ [.int 7, .str "a", .str "b"] (some { min := 0, max := none }) = true ∧
+    callableWith inst binst ⟨[.int (some 0) (some 5)], 1, some 1, BlockReq.none⟩ [.int 7, .str "a", .str "b"] (some { min := 0, max := none }) = false :=
   ⟨rfl, by decide, by decide⟩
 -- both sides of `C16_nomatch`: three arguments without a block and a non-string in the tail match nothing
 example : call inst binst audDs [.int 7, .str "a", .undef] none = .reported := by decide
